@@ -62,7 +62,7 @@ func Load(repoDir string, useCHA bool) (*Model, error) {
 		return nil, err
 	}
 	cfg := &packages.Config{
-		Mode:  packages.LoadAllSyntax,
+		Mode:  packages.LoadAllSyntax | packages.NeedModule,
 		Dir:   abs,
 		Tests: false,
 		Env: append(os.Environ(), "GOFLAGS=-mod=mod", "GOPROXY=off", "GOSUMDB=off", "GOWORK=off",
